@@ -514,6 +514,11 @@ func miscGenC25(seed uint64, tier string) *Scenario {
 		if r.Chance(1, 4) {
 			rpc.StartNs += int64(r.Intn(50000))
 		}
+		if len(c.Events) > 0 && r.Chance(1, 3) {
+			// arrive while the stop call is in progress
+			ev := c.Events[r.Intn(len(c.Events))]
+			rpc.StartNs = max(0, ev.AtNs-int64(r.Intn(core.Pick(r, 2, 2000, 300000))))
+		}
 		linger := c.IgnoreCancel && r.Chance(2, 3)
 		cl, srv := miscHandlerScript(r, id, horizon, linger)
 		if linger || r.Chance(1, 6) {
